@@ -724,7 +724,42 @@ fn variant_for_index(r: &mut Rng, w: &[u8], pool: &[Vec<u8>]) -> Vec<u8> {
     }
 }
 
-fn run_conf(rep: &mut Report, r: &mut Rng, conf: &Conf, contents: &[Vec<u8>], die_cases: usize, pool: &[Vec<u8>]) {
+/// three scratch repositories reused by all configurations of a run (`git init` is the most
+/// expensive git command here): `a` for hash-object, `b` for add, `d` for checkout
+struct Repos {
+    _scratch: Scratch,
+    a: std::path::PathBuf,
+    b: std::path::PathBuf,
+    d: std::path::PathBuf,
+}
+
+impl Repos {
+    fn new() -> Repos {
+        let scratch = Scratch::new("c43");
+        let mk = |n: &str| {
+            let p = scratch.join(n);
+            std::fs::create_dir_all(&p).unwrap();
+            git_ok(&p, &["init", "-q"], None);
+            p
+        };
+        let (a, b, d) = (mk("a"), mk("b"), mk("d"));
+        Repos { _scratch: scratch, a, b, d }
+    }
+    /// empty index, empty worktree (objects stay)
+    fn reset(&self) {
+        for p in [&self.a, &self.b, &self.d] {
+            let _ = std::fs::remove_file(p.join(".git/index"));
+            for e in std::fs::read_dir(p).unwrap() {
+                let e = e.unwrap();
+                if e.file_name() != ".git" {
+                    let _ = std::fs::remove_file(e.path());
+                }
+            }
+        }
+    }
+}
+
+fn run_conf(rep: &mut Report, r: &mut Rng, repos: &Repos, conf: &Conf, contents: &[Vec<u8>], die_cases: usize, pool: &[Vec<u8>]) {
     let git_conflict = AUTOCRLF[conf.autocrlf].1 == "input" && EOLS[conf.eol].1 == "crlf";
     let (an, en) = (AUTOCRLF[conf.autocrlf].1, EOLS[conf.eol].1);
     let gix_tok = GixAttrs::new(&conf.attrs).tokens("w0");
@@ -747,14 +782,20 @@ fn run_conf(rep: &mut Report, r: &mut Rng, conf: &Conf, contents: &[Vec<u8>], di
         return;
     }
 
-    let scratch = Scratch::new("c43");
+    let timing = std::env::var("C43_TIMING").is_ok();
+    let mut t_last = std::time::Instant::now();
+    let mut tick = |label: &str| {
+        if timing {
+            eprintln!("  {label}: {:.2}s", t_last.elapsed().as_secs_f64());
+            t_last = std::time::Instant::now();
+        }
+    };
+    repos.reset();
     let names: Vec<String> = (0..contents.len()).map(|i| format!("w{i}")).collect();
     let name_list: String = names.iter().map(|n| format!("{n}\n")).collect();
 
     // ---- A: to-git, empty index, no round-trip check: `git hash-object -w --stdin-paths`
-    let a = scratch.join("a");
-    std::fs::create_dir_all(&a).unwrap();
-    git_ok(&a, &["init", "-q"], None);
+    let a = repos.a.clone();
     std::fs::write(a.join(".gitattributes"), &conf.attrs).unwrap();
     for (n, w) in names.iter().zip(contents) {
         std::fs::write(a.join(n), w).unwrap();
@@ -802,6 +843,7 @@ fn run_conf(rep: &mut Report, r: &mut Rng, conf: &Conf, contents: &[Vec<u8>], di
         }
     }
 
+    tick("A");
     // ---- C: core.safecrlf=true dies exactly when the Fail check errors (empty index)
     let flags_die = conf.git_flags("true");
     let mut fail = Gix::new(conf, CrlfRoundTripCheck::Fail);
@@ -828,7 +870,8 @@ fn run_conf(rep: &mut Report, r: &mut Rng, conf: &Conf, contents: &[Vec<u8>], di
         let sobs = if o.ok {
             // warnings are not printed in die mode
             let id = String::from_utf8_lossy(&o.stdout).trim().to_string();
-            let g = cat_blobs(&a, &[id]).into_values().next().unwrap();
+            // same content, same configuration: the blob is the one step A already fetched
+            let g = blobs.get(&id).cloned().unwrap_or_else(|| cat_blobs(&a, &[id]).into_values().next().unwrap());
             format!("{} warn=none", hex(&g))
         } else {
             format!("die:{git_obs}")
@@ -847,10 +890,9 @@ fn run_conf(rep: &mut Report, r: &mut Rng, conf: &Conf, contents: &[Vec<u8>], di
         }
     }
 
+    tick("C");
     // ---- B: to-git over a pre-filled index with core.safecrlf=warn (`git add`), plus `ls-files --eol`
-    let b = scratch.join("b");
-    std::fs::create_dir_all(&b).unwrap();
-    git_ok(&b, &["init", "-q"], None);
+    let b = repos.b.clone();
     std::fs::write(b.join(".gitattributes"), "* -text\n").unwrap();
     let mut index: Vec<Option<Vec<u8>>> = Vec::new();
     for (n, w) in names.iter().zip(contents) {
@@ -871,21 +913,21 @@ fn run_conf(rep: &mut Report, r: &mut Rng, conf: &Conf, contents: &[Vec<u8>], di
     let o = git(&b, &git_flags(&flags_warn, &["add", "."]), None);
     assert!(o.ok, "git add: {}", String::from_utf8_lossy(&o.stderr));
     let warnings = parse_warnings(&o.stderr);
-    let ls = git_ok(&b, &git_flags(&flags_warn, &["ls-files", "-s"]), None);
+    let ls = git_ok(&b, &git_flags(&flags_warn, &["ls-files", "-s", "--eol"]), None);
     let mut id_of = std::collections::HashMap::new();
+    let mut wclass = std::collections::HashMap::new();
     for l in ls.lines() {
-        let (meta, name) = l.split_once('\t').unwrap();
+        // "100644 <id> 0\ti/lf    w/crlf  attr/text=auto      \t<name>"
+        let mut it = l.split('\t');
+        let meta = it.next().unwrap();
+        let eolinfo = it.next().unwrap();
+        let name = it.next().unwrap();
         id_of.insert(name.to_string(), meta.split(' ').nth(1).unwrap().to_string());
+        let w = eolinfo.split_whitespace().find(|t| t.starts_with("w/")).unwrap_or("w/");
+        wclass.insert(name.to_string(), w[2..].to_string());
     }
     let ids_b: Vec<String> = names.iter().map(|n| id_of[n].clone()).collect();
     let blobs_b = cat_blobs(&b, &ids_b);
-    let eolinfo = git_ok(&b, &git_flags(&flags_warn, &["ls-files", "--eol"]), None);
-    let mut wclass = std::collections::HashMap::new();
-    for l in eolinfo.lines() {
-        let (meta, name) = l.split_once('\t').unwrap();
-        let w = meta.split_whitespace().find(|t| t.starts_with("w/")).unwrap_or("w/");
-        wclass.insert(name.to_string(), w[2..].to_string());
-    }
     let mut warn = Gix::new(conf, CrlfRoundTripCheck::Warn);
     for (k, ((w, n), idx)) in contents.iter().zip(&names).zip(&index).enumerate() {
         let g = &blobs_b[&ids_b[k]];
@@ -941,10 +983,9 @@ fn run_conf(rep: &mut Report, r: &mut Rng, conf: &Conf, contents: &[Vec<u8>], di
         }
     }
 
+    tick("B");
     // ---- D: to-worktree: blobs stored verbatim, `git checkout-index -f -a`
-    let d = scratch.join("d");
-    std::fs::create_dir_all(&d).unwrap();
-    git_ok(&d, &["init", "-q"], None);
+    let d = repos.d.clone();
     for (n, w) in names.iter().zip(contents) {
         std::fs::write(d.join(n), w).unwrap();
     }
@@ -958,17 +999,38 @@ fn run_conf(rep: &mut Report, r: &mut Rng, conf: &Conf, contents: &[Vec<u8>], di
     let o = git(&d, &["update-index", "--index-info"], Some(info.as_bytes()));
     assert!(o.ok, "update-index rc={} {}", o.code, String::from_utf8_lossy(&o.stderr));
     std::fs::write(d.join(".gitattributes"), &conf.attrs).unwrap();
+    // git's in-memory ident_to_worktree reads out of bounds on `$Id:$` (memchr with length -1): the
+    // batch commands may die from a signal; then every file is asked for on its own and the ones
+    // git crashes on are skipped
     let o = git(&d, &git_flags(&flags, &["checkout-index", "-f", "-a"]), None);
-    assert!(o.ok, "checkout-index rc={} {}", o.code, String::from_utf8_lossy(&o.stderr));
+    let mut checked_out: Vec<Option<Vec<u8>>> = Vec::new();
+    if o.ok {
+        for k in 0..contents.len() {
+            checked_out.push(Some(std::fs::read(d.join(format!("x{k}"))).unwrap()));
+        }
+    } else {
+        assert!(o.code == -1, "checkout-index rc={} {}", o.code, String::from_utf8_lossy(&o.stderr));
+        for k in 0..contents.len() {
+            let name = format!("x{k}");
+            let _ = std::fs::remove_file(d.join(&name));
+            let o = git(&d, &git_flags(&flags, &["checkout-index", "-f", "--", &name]), None);
+            if o.ok {
+                checked_out.push(Some(std::fs::read(d.join(&name)).unwrap()));
+            } else {
+                assert!(o.code == -1, "checkout-index {name} rc={} {}", o.code, String::from_utf8_lossy(&o.stderr));
+                rep.outside_domain(&format!("git checkout-index dies from a signal on stored content {:?} ({})", contents[k].as_bstr(), conf.name()));
+                checked_out.push(None);
+            }
+        }
+    }
     // the in-memory conversion (`convert_to_working_tree`), as a second reference
     let mut req = String::new();
     for (k, id) in sids.iter().enumerate() {
         req.push_str(&format!("{id} x{k}\n"));
     }
     let o = git(&d, &git_flags(&flags, &["cat-file", "--batch", "--filters"]), Some(req.as_bytes()));
-    assert!(o.ok, "cat-file --batch --filters rc={} {} ({})", o.code, String::from_utf8_lossy(&o.stderr), conf.name());
-    let mut inmem: Vec<Vec<u8>> = Vec::new();
-    {
+    let mut inmem: Vec<Option<Vec<u8>>> = Vec::new();
+    if o.ok {
         // the header shows the size of the stored blob, not of the filtered output: find each
         // record's end by looking for the (known) next header
         let headers: Vec<String> = sids.iter().zip(contents).map(|(id, w)| format!("{id} blob {}\n", w.len())).collect();
@@ -982,17 +1044,38 @@ fn run_conf(rep: &mut Report, r: &mut Rng, conf: &Conf, contents: &[Vec<u8>], di
             } else {
                 rest.len() - 1
             };
-            inmem.push(rest[..end].to_vec());
+            inmem.push(Some(rest[..end].to_vec()));
             rest = &rest[end + 1..];
+        }
+    } else {
+        assert!(o.code == -1, "cat-file --batch --filters rc={} {}", o.code, String::from_utf8_lossy(&o.stderr));
+        for (k, id) in sids.iter().enumerate() {
+            let path_arg = format!("--path=x{k}");
+            let o = git(&d, &git_flags(&flags, &["cat-file", "--filters", &path_arg, id]), None);
+            if o.ok {
+                inmem.push(Some(o.stdout));
+            } else {
+                assert!(o.code == -1, "cat-file --filters rc={} {}", o.code, String::from_utf8_lossy(&o.stderr));
+                rep.outside_domain(&format!("git cat-file --filters dies from a signal on stored content {:?} ({})", contents[k].as_bstr(), conf.name()));
+                rep.bucket("to-worktree:git-in-memory-crashed");
+                inmem.push(None);
+            }
         }
     }
     assert_eq!(inmem.len(), contents.len());
+    tick("D-git");
     let ident_on = gix_tok[3] == "s";
     for (k, w) in contents.iter().enumerate() {
-        let g = std::fs::read(d.join(format!("x{k}"))).unwrap();
         let idhex = &sids[k];
-        let m = &inmem[k];
-        rep.case(&format!("swtm {stok} {an} {en} {} {}", hex(idhex.as_bytes()), hex(w)), &hex(m), true);
+        if let Some(m) = &inmem[k] {
+            rep.case(&format!("swtm {stok} {an} {en} {} {}", hex(idhex.as_bytes()), hex(w)), &hex(m), true);
+        }
+        let g = match &checked_out[k] {
+            Some(g) => g.clone(),
+            None => continue,
+        };
+        // without an answer from the in-memory conversion, the checkout result stands in for it
+        let m = &inmem[k].clone().unwrap_or_else(|| g.clone());
         if *m != g {
             rep.bucket("to-worktree:git-streaming-differs-from-git-in-memory");
         }
@@ -1071,6 +1154,7 @@ fn conf_from_tokens(t: &[&str]) -> Option<Conf> {
 }
 
 fn replay(rep: &mut Report, r: &mut Rng, ops: Vec<String>) {
+    let repos = Repos::new();
     for op in ops {
         let t: Vec<&str> = op.split(' ').collect();
         match t[0] {
@@ -1079,7 +1163,7 @@ fn replay(rep: &mut Report, r: &mut Rng, ops: Vec<String>) {
                     do_stats(rep, &src);
                     // git's view of the statistics
                     let c = Conf { attrs: String::new(), autocrlf: 1, eol: 2 };
-                    run_conf(rep, r, &c, &[src], 0, &[b"x".to_vec()]);
+                    run_conf(rep, r, &repos, &c, &[src], 0, &[b"x".to_vec()]);
                 }
             }
             "undo" if t.len() == 2 => {
@@ -1117,12 +1201,12 @@ fn replay(rep: &mut Report, r: &mut Rng, ops: Vec<String>) {
             }
             "pgit" | "sgit" if t.len() == 10 => {
                 if let (Some(conf), Some(src)) = (conf_from_tokens(&t[1..7]), unhex(t[9])) {
-                    run_conf(rep, r, &conf, &[src], 1, &[b"a\r\nb\r\n".to_vec()]);
+                    run_conf(rep, r, &repos, &conf, &[src], 1, &[b"a\r\nb\r\n".to_vec()]);
                 }
             }
             "pwt" | "swt" if t.len() == 9 => {
                 if let (Some(conf), Some(src)) = (conf_from_tokens(&t[1..7]), unhex(t[8])) {
-                    run_conf(rep, r, &conf, &[src], 1, &[b"a\r\nb\r\n".to_vec()]);
+                    run_conf(rep, r, &repos, &conf, &[src], 1, &[b"a\r\nb\r\n".to_vec()]);
                 }
             }
             _ => {}
@@ -1148,9 +1232,10 @@ fn real_main() {
         return;
     }
     let corpus = corpus();
+    let t_start = std::time::Instant::now();
 
     // building blocks: corpus first, then generated contents
-    let n_direct = args.budget(2500, 40_000) as usize;
+    let n_direct = args.budget(10_000, 100_000) as usize;
     for i in 0..corpus.len() + n_direct {
         let src = if i < corpus.len() { corpus[i].clone() } else { gen_content(&mut r) };
         do_stats(&mut rep, &src);
@@ -1164,14 +1249,22 @@ fn real_main() {
         do_ident_direct(&mut rep, &src);
     }
 
-    // pipeline vs git, batched per configuration
+    let t_direct = std::time::Instant::now();
+    rep.note(&format!("building blocks took {:.1}s", t_direct.duration_since(t_start).as_secs_f64()));
+    // pipeline vs git, batched per configuration: the quick tier takes a seed-dependent third of the
+    // fixed configurations plus a few random ones, the thorough tier all of them plus many
+    let repos = Repos::new();
     let mut confs = core_confs();
-    let n_random = args.budget(12, 300) as usize;
+    if !args.thorough {
+        let keep = (args.seed % 3) as usize;
+        confs = confs.into_iter().enumerate().filter(|(i, _)| i % 3 == keep).map(|(_, c)| c).collect();
+    }
+    let n_random = args.budget(5, 60) as usize;
     for _ in 0..n_random {
         confs.push(gen_conf(&mut r));
     }
-    let per_conf = args.budget(36, 120) as usize;
-    let die_cases = args.budget(4, 12) as usize;
+    let per_conf = args.budget(40, 60) as usize;
+    let die_cases = args.budget(3, 12) as usize;
     for (ci, conf) in confs.iter().enumerate() {
         let mut contents: Vec<Vec<u8>> = Vec::new();
         // a rotating slice of the corpus, then generated contents
@@ -1182,7 +1275,8 @@ fn real_main() {
                 contents.push(gen_content(&mut r));
             }
         }
-        run_conf(&mut rep, &mut r, conf, &contents, die_cases, &corpus);
+        run_conf(&mut rep, &mut r, &repos, conf, &contents, die_cases, &corpus);
     }
+    rep.note(&format!("{} configurations against git took {:.1}s", confs.len(), t_direct.elapsed().as_secs_f64()));
     rep.finish();
 }
